@@ -247,6 +247,14 @@ pub fn build(
                 };
 
                 let ident = (ident.0 != "_").then(|| ident.0.clone());
+                if let Some(name) = &ident {
+                    if pending_regions
+                        .iter()
+                        .any(|(_, r)| r.name.as_ref() == Some(name))
+                    {
+                        anyhow::bail!("field `{name}` is defined more than once in type `{resolvee_path}`");
+                    }
+                }
                 pending_regions.push((
                     address,
                     Region {
